@@ -318,9 +318,14 @@ def run_check(prop, tier, budget=None, max_runs=None, workers=None, quiet=False)
         return 2
     if totals["errors"]:
         e = totals["errors"][0]
-        print("HARNESS-ERROR run %s crashed in the harness: %s\n%s" % (e["index"], e["exc"], e["tb"]),
-              flush=True)
-        return 2
+        if not totals["violations"]:
+            print("HARNESS-ERROR run %s crashed in the harness: %s\n%s" % (e["index"], e["exc"], e["tb"]),
+                  flush=True)
+            return 2
+        # reproducible violations were found as well: they are replayed in a fresh interpreter before being
+        # reported, so they stand on their own; the crash is reported alongside
+        print("HARNESS-WARNING %d run(s) crashed in the harness (first: run %s: %s)" % (
+            len(totals["errors"]), e["index"], e["exc"]), flush=True)
     if totals["runs"] == 0:
         print("HARNESS-ERROR no run completed", flush=True)
         return 2
